@@ -41,6 +41,8 @@ let set_case (toks : string list) (impl_line : string) : string * string =
   (* specification-side state, driven by the implementation's observations *)
   let sfs = ref [] and ses = ref [] in
   let prev_names = ref [] in          (* implementation listing before the op (x-tokens) *)
+  let order = ref [] in               (* names in creation order (the order of the F / P ops of the case) *)
+  let d20 = ref false in              (* a deletion against creation order among equally old files (known finding D20) *)
   let idx = ref 0 in
   let rec go toks = match toks with
     | [] -> ()
@@ -50,11 +52,14 @@ let set_case (toks : string list) (impl_line : string) : string * string =
       (match set_step post_fix Debug prefix (!sfs, { entries = []; slen = N0; ties = [] }) o with
        | ROk (fs, _) -> sfs := fs | _ -> ());
       prev_names := nm :: !prev_names;
+      order := !order @ [name_of_tok nm];
       go rest
     | _ ->
       let (o, rest) = (match toks with
           | "N" :: r -> (ONew [], r)
-          | "P" :: nm :: mt :: len :: r -> (OPush (bytes_of_tok nm, n_of_decimal mt, n_of_decimal len), r)
+          | "P" :: nm :: mt :: len :: r ->
+            if not (List.mem (name_of_tok nm) !order) then order := !order @ [name_of_tok nm];
+            (OPush (bytes_of_tok nm, n_of_decimal mt, n_of_decimal len), r)
           | "D" :: r -> (ODelOldest, r)
           | "A" :: now :: dur :: r -> (ODelOlder (n_of_decimal now, n_of_decimal dur), r)
           | "W" :: mx :: r -> (OWhileOver (n_of_decimal mx), r)
@@ -87,6 +92,12 @@ let set_case (toks : string list) (impl_line : string) : string * string =
            if List.exists (fun nme -> not (List.mem nme !prev_names)) names then fail "set:file-appeared";
            if not (oracle_set_step fix18 !ses o del_n) then
              fail (if oracle_set_step post_fix !ses o del_n then "set:suffix-hole-equal-mtimes-D18" else "set:" ^ opname o);
+           (* creation order: no file may survive that is older (smaller mtime, or equal mtime and created earlier)
+              than a deleted one; equally old files ordered by path text against creation order = known finding D20 *)
+           if del_n <> [] && not (oracle_set_creation !order !ses del_n) then begin
+             if kf_c19_equal_mtime_name_order !order !ses del_n then d20 := true
+             else fail "set:deleted-a-newer-file-before-an-older-one"
+           end;
            ses := track_entries post_fix prefix !sfs !ses o del_n;
            sfs := kill_names del_n !sfs;
            prev_names := names
@@ -95,6 +106,7 @@ let set_case (toks : string list) (impl_line : string) : string * string =
       (match iobs with Some ("panic", _) -> () | _ -> if not !dead || iobs <> None then go rest)
   in
   (try go ops_toks with Failure m -> verdict := "oracle=unparsable:" ^ m);
+  if !verdict = "oracle=ok" && !d20 then verdict := "oracle=fail@survivors-not-a-suffix:equally-old-files-ordered-by-path-text kf=D20";
   (Buffer.contents buf, !verdict)
 
 (* ------------------------------------------------------------------------------ writer cases *)
